@@ -75,6 +75,43 @@ def make_module(rng, nf, sized=False):
     return m
 
 
+def stress_module(nf):
+    """nf functions, each with its own constants of every type, its own br_table label vector, one of the prefixed instruction
+    flavours, memory offsets, a call, a call_indirect and global accesses."""
+    atom = sorted(n for n in wasm_encode.OPS if ".atomic.rmw" in n)
+    sat = sorted(n for n in wasm_encode.OPS if "trunc_sat" in n)
+    funcs = []
+    for k in range(nf):
+        a64 = (0x9E3779B97F4A7C15 * (k + 1)) & (2 ** 64 - 1)
+        a32 = (0x85EBCA6B * (k + 3)) & (2 ** 32 - 1)
+        f32 = (0x3F800000 + 7919 * k) & 0x7F7FFFFF
+        f64 = (0x3FF0000000000000 + 104729 * 65537 * k) & 0x7FEFFFFFFFFFFFFF
+        depth = 3 + k % 6
+        labels = [(k * 7 + 3 * j) % depth for j in range(2 + (k * 5) % 11)]
+        op = atom[k % len(atom)]
+        t = op.split(".")[0]
+        al = wasm_encode.natural_align(op)
+        body = [["i64.const", b64(a64)], ["local.set", 1], ["f32.const", b32(f32)], ["local.set", 2], ["f64.const", b64(f64)], ["local.set", 3]]
+        body += [["block", ""]] * depth + [["local.get", 0], ["br_table", labels, (k * 3) % depth]] + [["end"]] * depth
+        rmw = [["i32.const", b32(64 + 8 * (k % 100))], [t + ".const", b32(a32) if t == "i32" else b64(a64 ^ k)]]
+        if "cmpxchg" in op:
+            rmw.append([t + ".const", b32(k) if t == "i32" else b64(k)])
+        body += rmw + [[op, al, 8 * (k % 50)], ["drop"]]
+        body += [["local.get", 3], [sat[k % len(sat)].replace("f32", "f64")] if "f64" in sat[k % len(sat)] else ["i32.trunc_sat_f64_s"], ["drop"]] \
+            if False else [["local.get", 3], ["i32.trunc_sat_f64_s"], ["drop"], ["local.get", 2], ["i64.trunc_sat_f32_u"], ["drop"]]
+        body += [["global.get", k % 5], ["i32.const", b32(a32 ^ 0x5555)], ["i32.add"], ["global.set", k % 5],
+                 ["local.get", 0], ["i32.const", b32(k % 7)], ["i32.add"], ["call", (k + 1) % nf if k % 3 == 0 else k],
+                 ["i32.const", b32(k % 4)], ["call_indirect", 0, 0],
+                 ["local.get", 1], ["i64.const", b64(a64 >> 3)], ["i64.xor"], ["i32.wrap_i64"], ["i32.add"],
+                 ["i32.const", b32(1024 + 4 * k)], ["i32.load16_s", 1, 4 * k + 2], ["i32.add"], ["end"]]
+        funcs.append({"type": 0, "locals": [["i64", 1], ["f32", 1], ["f64", 1]], "body": body})
+    return {"types": [{"p": ["i32"], "r": ["i32"]}], "funcs": funcs, "memory": {"min": 1, "max": 1, "shared": True}, "table": {"min": 4, "max": 4},
+            "elems": [{"offset": ["i32.const", b32(0)], "funcs": [0, 1, 2, 3]}],
+            "globals": [{"t": "i32", "mut": True, "init": ["i32.const", b32(g_)]} for g_ in range(5)],
+            "exports": [{"name": "f%dx" % k, "kind": "func", "idx": k} for k in range(0, nf, 17)],
+            "names": {str(k): "stress_fn_%d" % k for k in range(nf)}}
+
+
 TAIL_SWAP = {"i32.add": "i32.sub", "i32.xor": "i32.or", "i32.mul": "i32.and"}
 
 
@@ -457,6 +494,35 @@ def main():
                 if outs[0][0] != outs[1][0] or outs[0][1] != outs[1][1]:
                     v.deviation("buildconfig:%s:different-output" % name, {"argv": argv, "default": (outs[0][0], sorted(outs[0][1])),
                                                                            "config": (outs[1][0], sorted(outs[1][1]), outs[1][2])})
+        # E. many writer threads at once, on a module in which every function formats something of every kind (constants of all
+        #    four types, br_table label vectors, prefixed instructions with their many flavours, memory offsets, calls, globals):
+        #    whatever a worker needs while it writes a function is its own.  The files of runs with 3..16 threads are compared
+        #    byte for byte with those of the single-thread run with the same -f (and -p).
+        big = stress_module(240 if tier == "quick" else 900)
+        sd = os.path.join(wd, "stress")
+        os.makedirs(sd)
+        open(os.path.join(sd, "mod.wasm"), "wb").write(wasm_encode.encode(machine.enc_module(big)))
+        stress_runs = 0
+        for fopt, extra in ((7, []), (1, []), (40, ["-p"])) if tier == "quick" else ((7, []), (1, []), (40, ["-p"]), (3, ["-g"]), (100, [])):
+            def run_t(tn, tag):
+                dd = os.path.join(sd, "f%d-%s" % (fopt, tag))
+                os.makedirs(dd)
+                rc_, so_, se_ = run([w2c2, "-t", str(tn), "-f", str(fopt)] + extra + ["../mod.wasm", "out.c"], cwd=dd, timeout=300)
+                files = {f_: open(os.path.join(dd, f_), "rb").read() for f_ in sorted(os.listdir(dd))}
+                shutil.rmtree(dd, ignore_errors=True)
+                return rc_, files, se_[-300:]
+            rc0, base, se0 = run_t(1, "ref")
+            if rc0 != 0:
+                v.deviation("threads:stress:single-thread-run-fails", {"f": fopt, "stderr": se0})
+                continue
+            reps = [(tn, "r%d" % k) for k, tn in enumerate(([16, 8, 3, 16, 8, 5, 16, 11] * (1 if tier == "quick" else 6)))]
+            for (tn, tag), (rc_, files, se_) in zip(reps, pmap(lambda x: run_t(*x), reps, jobs=2)):
+                stress_runs += 1
+                if rc_ != 0 or files != base:
+                    diff = sorted(f_ for f_ in set(files) | set(base) if files.get(f_) != base.get(f_))
+                    v.deviation("threads:stress:files-differ-from-single-thread-run", {"threads": tn, "functions_per_file": fopt, "options": extra, "status": rc_,
+                                                                                       "differing_files": diff[:6], "stderr": se_})
+                    break
     finally:
         shutil.rmtree(wd, ignore_errors=True)
     cov = {"states": stats["model_states"] + tstates + fs["distinct"] + st["states"],
@@ -470,8 +536,10 @@ def main():
                    "active segments, host import, duplicate bodies, name section and a reference module x option vectors drawn from the full lattice "
                    "-t x -f x -p x -g x -m x -d x -r: file set = OutputFs prediction, each function exactly once, text equal to the single-file "
                    "output, static classification, every file compiles alone, reruns with other thread counts byte-identical, linked program = "
-                   "model's results; build configurations without pthread/getopt/libgen/strdup produce identical output",
-           "pool_model_states": stats["model_states"], "pool_runs": len(runs), "option_jobs": len(jobs), "exhaustive": False}
+                   "model's results; build configurations without pthread/getopt/libgen/strdup produce identical output; thread stress: a module of "
+                   "hundreds of functions that each format constants of all types, a br_table, a prefixed instruction flavour, offsets, calls, "
+                   "translated with 3..16 writer threads, every file byte-identical to the single-thread run",
+           "pool_model_states": stats["model_states"], "pool_runs": len(runs), "option_jobs": len(jobs), "thread_stress_runs": stress_runs, "exhaustive": False}
     return v.finish("model_checking", cov,
                     ["schedules of the real pool are perturbed, not exhaustively enumerated; the exhaustive part is the WorkerPool model",
                      "gnu-ld data segment mode output is not linked (needs a linker script step); its files are checked for presence only"])
